@@ -18,7 +18,12 @@ Decided (necessary conditions of the statement that are visible in the code):
       start (`workflow.run(…, run_id=…)` in the server package, or once in
       `ServerRuntimeDecorator.run_workflow`, the choke point of those calls), an observer that awaits
       the run's completion and writes a terminal status on the exception path.  On-demand awaits
-      (`await_workflow`) do not count: nobody has to call them.
+      (`await_workflow`) do not count: nobody has to call them.  The observer that discharges a site
+      must also (i) write only when no terminal status is stored (cancel / timeout / step failure
+      raise in the run task too, after their terminal event — guards evaluated over the 3 terminal
+      statuses), (ii) not record cancellation of the run task (abort for idle release / shutdown)
+      as an outcome, (iii) be awaited in place, registered as a done-callback, or spawned as a task
+      that stays referenced (asyncio holds tasks weakly).
 * R3  no terminal -> running.  Every site that can store status "running" is (a) the creation of the
       record of a *new* run id, or (b) unreachable when the stored status is terminal (guards
       evaluated over the 3 terminal statuses), or (c) the awaited reaction of an internal adapter
@@ -57,7 +62,7 @@ EXPLANATION = (
     "class reaches one; the status travels unchanged through _handle_status_update -> _retry_store_write -> update_handler_status -> self.update(record). "
     "R2: the run task can end without a terminal event (engine-side failure); the server must observe task completion at every run start (or at the "
     "ServerRuntimeDecorator.run_workflow choke point) with an observer that writes a terminal status on the exception path, or the engine must publish a "
-    "failure event from a catch-all around the loop. R3: every writer of status 'running' is a creation, is unreachable for a terminal stored status, is the "
+    "failure event from a catch-all around the loop; the observer writes only over a non-terminal stored status, ignores cancellation of the run task, and its task stays referenced. R3: every writer of status 'running' is a creation, is unreachable for a terminal stored status, is the "
     "awaited reaction to a non-terminal stream event, or goes through a primitive that refuses terminal->running. R4: _retry_store_write interpreted over "
     "back-off lists of length 0..3 x failure counts: exact attempts, sleeps, re-raise, configuration not consumed. R5: record created before the run starts, same run id. "
     "Not decided: failures beyond the back-offs, RMW races in suspending stores, DBOS-resumed runs, handler-id re-use."
@@ -396,20 +401,27 @@ def _is_completion_await(a: ast.Await) -> bool:
     return isinstance(v, (ast.Name, ast.Attribute))
 
 
-def _terminal_write_in(stmts: list[ast.stmt], mod: Module, depth: int = 1) -> bool:
+def _terminal_writes(stmts: list[ast.stmt], mod: Module, depth: int = 1, via: ast.Call | None = None) -> list[tuple[ast.Call, ast.Call | None]]:
+    """Terminal status writes in the statements (or one helper call deep): (write call, helper call in the
+    original statements through which it is reached, or None)."""
+    out: list[tuple[ast.Call, ast.Call | None]] = []
     for s in stmts:
         for c in [x for x in ast.walk(s) if isinstance(x, ast.Call)]:
             n = last(call_name(c))
             if n in STATUS_CALLS:
                 sv = _status_arg(c)
                 if sv is not None and not (isinstance(sv, ast.Constant) and sv.value == "running"):
-                    return True
+                    out.append((c, via))
             elif depth > 0 and n is not None:
                 # helper one call deep: a method / function of the same module with that name
                 for q, f in mod.functions.items():
-                    if q.split(".")[-1] == n and _terminal_write_in(f.body, mod, depth - 1):
-                        return True
-    return False
+                    if q.split(".")[-1] == n:
+                        out.extend(_terminal_writes(f.body, mod, depth - 1, via=c))
+    return out
+
+
+def _terminal_write_in(stmts: list[ast.stmt], mod: Module, depth: int = 1) -> bool:
+    return bool(_terminal_writes(stmts, mod, depth))
 
 
 _CACHE: dict[tuple[str, int], tuple[Module, object]] = {}
@@ -427,34 +439,53 @@ def _per_module(kind: str, mod: Module, compute):
     return hit[1]
 
 
-def _observers(mods: list[Module]) -> dict[str, tuple[Module, ast.AST]]:
-    out: dict[str, tuple[Module, ast.AST]] = {}
+def _observers(mods: list[Module]) -> dict[str, dict]:
+    out: dict[str, dict] = {}
     for mod in mods:
         out.update(_per_module("observers", mod, _observers_of))
     return out
 
 
-def _observers_of(mod: Module) -> dict[str, tuple[Module, ast.AST]]:
+def _names_cancel(h: ast.ExceptHandler) -> bool:
+    t = h.type
+    if t is None:
+        return False
+    return any("Cancelled" in ast.unparse(e) for e in (t.elts if isinstance(t, ast.Tuple) else [t]))
+
+
+def _observers_of(mod: Module) -> dict[str, dict]:
     """Functions that await a run's completion and write a terminal status on the exception path
-    (or inspect `task.exception()` in a done-callback and then write one)."""
-    out: dict[str, tuple[Module, ast.AST]] = {}
+    (or inspect `task.exception()` in a done-callback and then write one).  Per observer: the writes, and
+    whether the writing handler also catches cancellation of the run task (abort for idle release / shutdown)."""
+    out: dict[str, dict] = {}
     if "await" not in mod.src and ".exception()" not in mod.src:
         return out
     for q, fn in mod.functions.items():
-        found = False
+        writes: list = []
+        catches_cancel = False
         for t in [x for x in walk_shallow(fn) if isinstance(x, ast.Try)]:
             body_awaits = [a for s in t.body for a in [s, *walk_shallow(s)] if isinstance(a, ast.Await) and _is_completion_await(a)]
             if not body_awaits:
                 continue
-            for h in t.handlers:
-                if _catches_all(h) in ("all", "exception") and _terminal_write_in(h.body, mod):
-                    found = True
-        if not found:
+            for i, h in enumerate(t.handlers):
+                kind = _catches_all(h)
+                if kind not in ("all", "exception"):
+                    continue
+                w = _terminal_writes(h.body, mod)
+                if not w:
+                    continue
+                writes += w
+                if kind == "all":
+                    # an earlier `except CancelledError: raise` takes cancellation away from this handler
+                    earlier = [e for e in t.handlers[:i] if _names_cancel(e) and e.body and isinstance(e.body[-1], ast.Raise) and e.body[-1].exc is None]
+                    if not earlier:
+                        catches_cancel = True
+        if not writes:
             exc_calls = [c for c in walk_shallow(fn) if isinstance(c, ast.Call) and isinstance(c.func, ast.Attribute) and c.func.attr == "exception" and not c.args]
-            if exc_calls and _terminal_write_in(fn.body, mod):
-                found = True
-        if found:
-            out[q.split(".")[-1]] = (mod, fn)
+            if exc_calls:
+                writes = _terminal_writes(fn.body, mod)
+        if writes:
+            out[q.split(".")[-1]] = {"mod": mod, "fn": fn, "writes": writes, "catches_cancel": catches_cancel}
     return out
 
 
@@ -466,21 +497,113 @@ def _refs_observer(stmt_node: ast.AST, observers: dict) -> str | None:
     return None
 
 
-def _attached_after(fn: ast.AST, start_call: ast.Call, observers: dict) -> tuple[bool, str]:
+def _attached_after(fn: ast.AST, start_call: ast.Call, observers: dict) -> tuple[bool, str, list[tuple[ast.AST, str]]]:
     """Every normal path from the run-start statement to the function's exit passes a statement that
-    spawns / awaits / registers an observer."""
+    spawns / awaits / registers an observer.  Also returns the attaching statements with the observer's name."""
     cfg = CFG(fn)
     st = enclosing_stmt(start_call)
     starts = cfg.nodes_of(st)
     if not starts:
-        return False, "run-start statement not found in the CFG"
+        return False, "run-start statement not found in the CFG", []
     attach = [n for n in cfg.nodes if n.ast is not None and n.kind == "stmt" and n.ast is not st and any(isinstance(c, ast.Call) for c in ast.walk(n.ast)) and _refs_observer(n.ast, observers)]
     if _refs_observer(st, observers):  # e.g. self._observe(super().run_workflow(...))
-        return True, ""
+        return True, "", [(st, _refs_observer(st, observers))]
     if not attach:
-        return False, "no completion observer is spawned, awaited or registered after the run is started"
+        return False, "no completion observer is spawned, awaited or registered after the run is started", []
+    used = [(n.ast, _refs_observer(n.ast, observers)) for n in attach]
     off = cfg.must_pass(starts, [cfg.exit], attach, labels_excluded=("exc", "cancel"), include_starts=False)
-    return (not off), ("" if not off else "the observer is attached only on some paths after the run start")
+    return (not off), ("" if not off else "the observer is attached only on some paths after the run start"), used
+
+
+_SPAWN = ("create_task", "ensure_future")
+_KEEP = ("add", "append", "appendleft", "setdefault", "__setitem__")
+
+
+def _task_kept(fn: ast.AST, stmt: ast.AST, mod: Module, obs_name: str) -> tuple[bool, str]:
+    """asyncio holds tasks weakly: an observer spawned as a task must be referenced until it is done."""
+    calls = [c for c in ast.walk(stmt) if isinstance(c, ast.Call)]
+    if any(last(call_name(c)) == "add_done_callback" for c in calls):
+        return True, ""
+    for a in [x for x in ast.walk(stmt) if isinstance(x, ast.Await)]:
+        if any((isinstance(x, ast.Attribute) and x.attr == obs_name) or (isinstance(x, ast.Name) and x.id == obs_name) for x in ast.walk(a)):
+            return True, ""  # awaited in place
+    spawns = [c for c in calls if last(call_name(c)) in _SPAWN]
+    if not spawns:
+        # the coroutine is handed to a helper: it must be a spawner that keeps the task
+        for c in calls:
+            n = last(call_name(c))
+            for q, f in mod.functions.items():
+                if q.split(".")[-1] == n and n != obs_name:
+                    fc = [x for x in ast.walk(f) if isinstance(x, ast.Call)]
+                    if any(last(call_name(x)) in _SPAWN for x in fc) and any(isinstance(x.func, ast.Attribute) and x.func.attr in _KEEP for x in fc):
+                        return True, ""
+        return False, "the observer coroutine is neither awaited nor handed to a helper that creates and keeps a task"
+    for sp in spawns:
+        p = parent(sp)
+        if isinstance(p, ast.Call) and isinstance(p.func, ast.Attribute) and p.func.attr in _KEEP:
+            continue  # container.add(create_task(...))
+        if isinstance(p, (ast.Assign, ast.AnnAssign)):
+            tgts = p.targets if isinstance(p, ast.Assign) else [p.target]
+            if any(isinstance(t, (ast.Attribute, ast.Subscript)) for t in tgts):
+                continue
+            names = {t.id for t in tgts if isinstance(t, ast.Name)}
+            kept = False
+            for x in walk_shallow(fn):
+                if isinstance(x, ast.Call) and isinstance(x.func, ast.Attribute) and x.func.attr in _KEEP and any(isinstance(a, ast.Name) and a.id in names for a in x.args):
+                    kept = True
+                if isinstance(x, ast.Assign) and isinstance(x.value, ast.Name) and x.value.id in names and any(isinstance(t, (ast.Attribute, ast.Subscript)) for t in x.targets):
+                    kept = True
+            if kept:
+                continue
+        return False, "the observer task is created but no reference to it is kept (asyncio holds tasks weakly; it can be collected before the run ends)"
+    return True, ""
+
+
+def _observer_quality(senv: dict, attach_fn: ast.AST, attach_mod: Module, used: list[tuple[ast.AST, str]], observers: dict) -> list[dict]:
+    """Obligations on the observers that discharge R2 and on how they are attached."""
+    out = []
+    seen = set()
+    for stmt, name in used:
+        ok, why = _task_kept(attach_fn, stmt, attach_mod, name)
+        out.append({"slot": f"observer-task-kept:{qualname_of(attach_fn)}", "ok": ok, "reason": why, "mod": attach_mod, "fn": attach_fn, "node": stmt,
+                    "text": "the completion observer is awaited in place, registered as a done-callback, or spawned as a task that stays referenced"})
+        if name in seen:
+            continue
+        seen.add(name)
+        ob = observers[name]
+        out.append({"slot": f"observer-ignores-cancel:{name}", "ok": not ob["catches_cancel"], "mod": ob["mod"], "fn": ob["fn"], "node": ob["fn"],
+                    "reason": "the handler that writes the terminal status also catches CancelledError: aborting the run task for idle release or shutdown (the run has not ended) would be recorded as a failure",
+                    "text": "cancellation of the run task (idle release / shutdown abort) is not recorded as an outcome"})
+        bad = ""
+        for w, via in ob["writes"]:
+            sites = [(ob["fn"], via)] if via is not None and enclosing_function(via) is ob["fn"] else []
+            sites.append((enclosing_function(w), w))
+            guarded = False
+            for f, node in sites:
+                if f is None:
+                    continue
+                cfg = CFG(f)
+                nodes = cfg.nodes_of(enclosing_stmt(node))
+                names = set()
+                for n in nodes:
+                    names |= _names_with_status(cfg, n)
+                if not names or not nodes:
+                    continue
+                blocked = True
+                for cur in TERMINAL:
+                    env = dict(senv)
+                    for nm, sub in names:
+                        rec = Record("PersistentHandler", status=cur, idle_since=None, run_id="r")
+                        env[nm] = [rec] if sub else rec
+                    if any(_guard_allows(cfg, n, env) for n in nodes):
+                        blocked = False
+                guarded = guarded or blocked
+            if not guarded:
+                bad = bad or f"`{ast.unparse(w)[:70]}` is reachable when the stored status is already completed/failed/cancelled"
+        out.append({"slot": f"observer-keeps-outcome:{name}", "ok": not bad, "reason": bad + " — a run that ended with its terminal event (cancel, timeout, step failure all raise in the run task) would be re-labelled",
+                    "mod": ob["mod"], "fn": ob["fn"], "node": ob["fn"],
+                    "text": "the observer writes its status only when no terminal status is stored (the outcome recorded from the terminal event is kept)"})
+    return out
 
 
 def _engine_publishes_failure(repo) -> tuple[bool, str]:
@@ -526,21 +649,25 @@ def _start_sites_of(mod: Module) -> list[tuple[Module, ast.AST, ast.Call, str]]:
     return out
 
 
-def _r2_eval(repo) -> list[dict]:
-    """Judge every run-start site of the server package on the given tree."""
+def _r2_eval(repo) -> tuple[list[dict], list[dict]]:
+    """Judge every run-start site of the server package on the given tree; second value: obligations on the
+    observers that were used to discharge sites."""
     server_mods = [m for m in repo.by_rel.values() if m.name.startswith(SERVER_PKG)]
     sr = repo.module(SR)
+    senv = _store_env(repo)
     observers = _observers([m for m in repo.by_rel.values() if m.name.startswith(SCOPE)])
     engine_ok, engine_where = _engine_publishes_failure(repo)
+    quality: list[dict] = []
     # choke point: ServerRuntimeDecorator.run_workflow
     choke_ok, choke_reason = False, "ServerRuntimeDecorator.run_workflow only forwards; it attaches no completion observer"
     rw = sr.functions.get("ServerRuntimeDecorator.run_workflow")
-    if rw is not None:
+    if rw is not None and not engine_ok:
         inner = [c for c in walk_shallow(rw) if isinstance(c, ast.Call) and isinstance(c.func, ast.Attribute) and c.func.attr == "run_workflow"]
         for c in inner:
-            ok, why = _attached_after(rw, c, observers)
+            ok, why, used = _attached_after(rw, c, observers)
             if ok:
                 choke_ok = True
+                quality += _observer_quality(senv, rw, sr, used, observers)
             else:
                 choke_reason = "ServerRuntimeDecorator.run_workflow: " + why
     res = []
@@ -551,11 +678,18 @@ def _r2_eval(repo) -> list[dict]:
         elif kind == "workflow.run" and choke_ok:
             ok, how = True, "observer attached in ServerRuntimeDecorator.run_workflow (choke point of workflow.run)"
         else:
-            ok, why = _attached_after(fn, c, observers)
+            ok, why, used = _attached_after(fn, c, observers)
             how = "observer attached at the start site" if ok else ""
             reason = (why + "; " + choke_reason) if kind == "workflow.run" else why
+            if ok:
+                quality += _observer_quality(senv, fn, mod, used, observers)
         res.append({"mod": mod, "fn": fn, "call": c, "kind": kind, "ok": ok, "how": how, "reason": reason})
-    return res
+    uniq, seen = [], set()
+    for q in quality:
+        if q["slot"] not in seen:
+            seen.add(q["slot"])
+            uniq.append(q)
+    return res, uniq
 
 
 FIXTURE = VERIF / "fixtures" / "c15" / "server_runtime_observed.py"
@@ -571,8 +705,19 @@ FIXTURE_VARIANTS = [
      "        if start_event is not None:\n            self._spawn_task(self._observe_completion(run_id, adapter))\n", False),
     ("status written on the success path only", "        except asyncio.CancelledError:\n            raise\n        except Exception as e:\n            found",
      "        except asyncio.CancelledError:\n            raise\n        else:\n            e = None\n            found", False),
-    ("benign: ensure_future", "self._spawn_task(self._observe_completion(run_id, adapter))", "asyncio.ensure_future(self._observe_completion(run_id, adapter))", True),
-    ("benign: except BaseException", "        except asyncio.CancelledError:\n            raise\n        except Exception as e:", "        except BaseException as e:", True),
+    ("completion never awaited", "            await adapter.get_result()\n", "            adapter.get_result()\n", False),
+    ("observer task not referenced", "self._spawn_task(self._observe_completion(run_id, adapter))", "asyncio.ensure_future(self._observe_completion(run_id, adapter))", False),
+    ("observer task bound to a local only", "self._spawn_task(self._observe_completion(run_id, adapter))", "watcher = asyncio.create_task(self._observe_completion(run_id, adapter))", False),
+    ("cancellation of the run task recorded as failure", "        except asyncio.CancelledError:\n            raise\n        except Exception as e:", "        except BaseException as e:", False),
+    ("observer overwrites a recorded outcome", "            if found and not is_terminal_status(found[0].status):\n", "            if found:\n", False),
+    ("observer guard tests the wrong polarity", "            if found and not is_terminal_status(found[0].status):\n", "            if found and is_terminal_status(found[0].status):\n", False),
+    ("benign: task kept in the set directly", "self._spawn_task(self._observe_completion(run_id, adapter))", "self._observers.add(asyncio.ensure_future(self._observe_completion(run_id, adapter)))", True),
+    ("benign: task local then stored", "        self._spawn_task(self._observe_completion(run_id, adapter))\n",
+     "        watcher = asyncio.create_task(self._observe_completion(run_id, adapter))\n        self._observers.add(watcher)\n        watcher.add_done_callback(self._observers.discard)\n", True),
+    ("benign: BaseException after a CancelledError re-raise", "        except Exception as e:\n            found", "        except BaseException as e:\n            found", True),
+    ("benign: guard by equality with running", "            if found and not is_terminal_status(found[0].status):\n", "            if found and found[0].status == \"running\":\n", True),
+    ("benign: early return on a terminal status", "            if found and not is_terminal_status(found[0].status):\n                await self._handle_status_update(run_id, \"failed\", error=str(e))\n",
+     "            if not found or is_terminal_status(found[0].status):\n                return\n            await self._handle_status_update(run_id, \"failed\", error=str(e))\n", True),
     ("benign: write through a helper", "                await self._handle_status_update(run_id, \"failed\", error=str(e))\n\n    async def _mark_failed",
      "                await self._mark_failed(run_id, e)\n\n    async def _mark_failed", True),
     ("benign: keyword status on the primitive", "await self._handle_status_update(run_id, \"failed\", error=str(e))\n\n    async def _mark_failed",
@@ -583,7 +728,7 @@ FIXTURE_VARIANTS = [
 
 
 def _r2(chk, repo) -> None:
-    res = _r2_eval(repo)
+    res, quality = _r2_eval(repo)
     server_sites = [r for r in res]
     chk.floor("C15.R2", "run-start sites in the server package (`workflow.run(…, run_id=…)` / direct `run_workflow`)", len(server_sites), 3)
     for r in server_sites:
@@ -592,6 +737,8 @@ def _r2(chk, repo) -> None:
                + (f" — {r['how']}" if r["ok"] else ""), r["ok"], m=r["mod"], node=r["call"], fn=r["fn"], instance=f"run-start:{r['kind']}",
                reason="engine-side failures (a store/adapter call raising in process_command, a reducer error) end the run task with no terminal event and nothing reacts: "
                       + r["reason"] + " — the handler stays `running` (triage/t_c15.py::r2a)")
+    for q in quality:
+        chk.ob("C15.R2", q["text"], q["ok"], m=q["mod"], node=q["node"], fn=q["fn"], instance=q["slot"], reason=q["reason"])
     # DBOS resume path: not an obligation (cannot be exercised here), but say what was seen
     dbos = [s for s in _start_sites([m for m in repo.by_rel.values() if m.name.startswith("llama_agents.dbos")])]
     for mod, fn, c, kind in dbos:
@@ -613,9 +760,12 @@ def _r2(chk, repo) -> None:
             fx = repo.with_overlay({rel: src})
         except SyntaxError as e:
             raise AnchorError(f"C15.R2 fixture variant `{name}` does not parse: {e}")
-        got = [r for r in _r2_eval(fx) if r["kind"] == "workflow.run"]
-        if not got or any(r["ok"] != want for r in got):
-            raise AnchorError(f"C15.R2 checker self-test: fixture variant `{name}` should be judged {'observed' if want else 'NOT observed'} at every workflow.run site, got {[r['ok'] for r in got]}")
+        fres, fq = _r2_eval(fx)
+        got = [r for r in fres if r["kind"] == "workflow.run"]
+        verdict = bool(got) and all(r["ok"] for r in got) and all(q["ok"] for q in fq)
+        if not got or verdict != want or (not want and all(r["ok"] for r in got) and all(q["ok"] for q in fq)):
+            raise AnchorError(f"C15.R2 checker self-test: fixture variant `{name}` should be judged {'correctly observed' if want else 'NOT correctly observed'}; "
+                              f"sites {[r['ok'] for r in got]}, observer obligations {[(q['slot'], q['ok']) for q in fq]}")
         judged += 1
     chk.floor("C15.R2", "planted-observer fixture variants judged correctly (accepting and rejecting)", judged, len(FIXTURE_VARIANTS))
 
@@ -870,6 +1020,7 @@ _SR = "packages/llama-agents-server/src/llama_agents/server/_runtime/server_runt
 _SV = "packages/llama-agents-server/src/llama_agents/server/_service.py"
 _ST = "packages/llama-agents-server/src/llama_agents/server/_store/abstract_workflow_store.py"
 _ID = "packages/llama-agents-server/src/llama_agents/server/_runtime/idle_release_runtime.py"
+_DB = "packages/llama-agents-dbos/src/llama_agents/dbos/idle_release.py"
 _PR = "packages/llama-agents-server/src/llama_agents/server/_runtime/persistence_runtime.py"
 _CLP = "packages/llama-index-workflows/src/workflows/runtime/control_loop.py"
 TWINS = [
@@ -939,11 +1090,42 @@ TWINS = [
     Twin("benign: run id local renamed", _SV,
          "            run_id = nanoid()\n            await self._runtime.run_workflow_handler(\n                handler_id, workflow.workflow_name, run_id\n            )\n            _ = workflow.run(\n                ctx=context,\n                start_event=start_event,\n                run_id=run_id,\n            )",
          "            rid = nanoid()\n            await self._runtime.run_workflow_handler(\n                handler_id, workflow.workflow_name, rid\n            )\n            _ = workflow.run(\n                ctx=context,\n                start_event=start_event,\n                run_id=rid,\n            )", None),
-    # ---- R2: the tree violates R2 today at every start site, so breaking twins must add a *new* unobserved start
-    Twin("a further unobserved run start (reload helper outside the lock)", _ID, "    async def _ensure_active_run(self, run_id: str) -> None:\n        if run_id in self._active_run_ids:\n            return",
-         "    async def _ensure_active_run(self, run_id: str) -> None:\n        if run_id in self._active_run_ids:\n            return\n        if run_id.startswith(\"warm-\"):\n            self._persistence.get_tracked_workflow(run_id).run(run_id=run_id)\n            return", "C15.R2"),
+    # ---- R2 (repaired shape: ServerRuntimeDecorator.run_workflow spawns _observe_completion)
+    Twin("pre-fix shape: run_workflow only forwards, no observer (revert of de3d8e7)", _SR,
+         "        task = asyncio.create_task(self._observe_completion(run_id, adapter))\n        self._completion_observers.add(task)\n        task.add_done_callback(self._completion_observers.discard)\n        return adapter",
+         "        return adapter", "C15.R2"),
+    Twin("observer swallows the failure instead of recording it", _SR, "                    await self._handle_status_update(run_id, \"failed\", error=str(e))",
+         "                    logger.error(\"run %s ended with %s\", run_id, e)", "C15.R2"),
+    Twin("observer writes failed over a recorded outcome", _SR, "                if found and not is_terminal_status(found[0].status):", "                if found:", "C15.R2"),
+    Twin("observer guard inverted", _SR, "                if found and not is_terminal_status(found[0].status):", "                if found and is_terminal_status(found[0].status):", "C15.R2"),
+    Twin("observer task not kept", _SR, "        self._completion_observers.add(task)\n        task.add_done_callback(self._completion_observers.discard)\n", "", "C15.R2"),
+    Twin("completion not awaited", _SR, "            await adapter.get_result()\n", "            adapter.get_result()\n", "C15.R2"),
+    Twin("cancellation of the run task recorded as failure", _SR, "        except asyncio.CancelledError:\n            raise\n        except Exception as e:\n            try:\n                found",
+         "        except BaseException as e:\n            try:\n                found", "C15.R2"),
+    Twin("observer attached for fresh starts only", _SR,
+         "        task = asyncio.create_task(self._observe_completion(run_id, adapter))\n        self._completion_observers.add(task)\n        task.add_done_callback(self._completion_observers.discard)\n",
+         "        if start_event is not None:\n            task = asyncio.create_task(self._observe_completion(run_id, adapter))\n            self._completion_observers.add(task)\n            task.add_done_callback(self._completion_observers.discard)\n", "C15.R2"),
+    Twin("observer handles one exception class only", _SR, "        except Exception as e:\n            try:\n                found", "        except ConnectionError as e:\n            try:\n                found", "C15.R2"),
+    Twin("observer marks the handler running", _SR, "                    await self._handle_status_update(run_id, \"failed\", error=str(e))", "                    await self._handle_status_update(run_id, \"running\")", "C15.R2"),
     Twin("direct start on the inner runtime bypasses the choke point", _ID, "        workflow.run(ctx=context, run_id=run_id)\n        self._active_run_ids.add(run_id)",
          "        self._decorated.run_workflow(run_id, workflow, None)\n        self._active_run_ids.add(run_id)", "C15.R2"),
+    Twin("benign: a further workflow.run start is covered by the choke point", _ID, "    async def _ensure_active_run(self, run_id: str) -> None:\n        if run_id in self._active_run_ids:\n            return",
+         "    async def _ensure_active_run(self, run_id: str) -> None:\n        if run_id in self._active_run_ids:\n            return\n        if run_id.startswith(\"warm-\"):\n            self._persistence.get_tracked_workflow(run_id).run(run_id=run_id)\n            return", None),
+    Twin("benign: observer spawned through a helper that keeps the task", _SR,
+         "        task = asyncio.create_task(self._observe_completion(run_id, adapter))\n        self._completion_observers.add(task)\n        task.add_done_callback(self._completion_observers.discard)\n        return adapter\n",
+         "        self._spawn_observer(self._observe_completion(run_id, adapter))\n        return adapter\n\n    def _spawn_observer(self, coro):\n        task = asyncio.create_task(coro)\n        self._completion_observers.add(task)\n"
+         "        task.add_done_callback(self._completion_observers.discard)\n        return task\n", None),
+    Twin("benign: observer guard by equality with running", _SR, "                if found and not is_terminal_status(found[0].status):", "                if found and found[0].status == \"running\":", None),
+    Twin("benign: BaseException after the CancelledError re-raise", _SR, "        except Exception as e:\n            try:\n                found", "        except BaseException as e:\n            try:\n                found", None),
+    Twin("benign: early return on a terminal status", _SR,
+         "                if found and not is_terminal_status(found[0].status):\n                    await self._handle_status_update(run_id, \"failed\", error=str(e))",
+         "                if not found or is_terminal_status(found[0].status):\n                    return\n                await self._handle_status_update(run_id, \"failed\", error=str(e))", None),
+    # ---- R3: pre-fix shapes of 48dd9ef must be detected
+    Twin("pre-fix shape: release marker forces status running (revert of 48dd9ef, part 1)", _DB, "                run_id, idle_since=datetime.now(timezone.utc)",
+         "                run_id, status=\"running\", idle_since=datetime.now(timezone.utc)", "C15.R3"),
+    Twin("pre-fix shape: resume writes back a stale snapshot with status running (revert of 48dd9ef, part 2)", _DB,
+         "        await self._store.update_handler_status(run_id, idle_since=None)\n\n        logger.info(f\"Resumed DBOS",
+         "        handler.status = \"running\"\n        handler.updated_at = datetime.now(timezone.utc)\n        handler.idle_since = None\n        await self._store.update(handler)\n\n        logger.info(f\"Resumed DBOS", "C15.R3"),
     Twin("benign: on-demand await stays on-demand", _SV, "        try:\n            await run\n        except Exception:\n            logger.error(", "        try:\n            await run.stop_event_result()\n        except Exception:\n            logger.error(", None),
     Twin("benign: log-only catch-all in the engine does not count as observation", _CLP,
          "        finally:\n            # Cancel pull task if running", "        except Exception:\n            logger.exception(\"control loop failed\")\n            raise\n        finally:\n            # Cancel pull task if running", None),
